@@ -46,7 +46,7 @@ func TestVerifBounded_C08_StopInEveryPhase(t *testing.T) {
 			}
 			lc.SetUnregisterOnShutdown(unregister)
 			_ = services.StartAndAwaitRunning(ctx, lc)
-			if !verifAwaitState(store, "me", phase, 3*time.Second) {
+			if !verifAwaitState(store, "me", phase, 15*time.Second) {
 				report(tag+":phase", fmt.Sprintf("the lifecycler never published %v", phase))
 			}
 			time.Sleep(50 * time.Millisecond) // a couple of heartbeats in that phase
